@@ -317,7 +317,9 @@ func Run(r *core.Run) {
 		for _, rc := range []string{"", "EiRC"} {
 			for _, ao := range []any{nil, "origin.example", M{"o": []any{1.0}}} {
 				for _, de := range []bool{false, true} {
-					for _, times := range [][3]uint64{{0, 0, 0}, {1600000000, 0, 1}, {1600000000, 1600000100, 1}} {
+					// (created, updated, has version): never updated; updated later; updated at the very anchoring time of the creation
+					// (two transactions of one block) and, as data, before it
+					for _, times := range [][3]uint64{{0, 0, 0}, {1600000000, 0, 1}, {1600000000, 1600000100, 1}, {1600000000, 1600000000, 1}, {1600000000, 1599999999, 1}, {1, 1, 1}} {
 						for _, pub := range []bool{true, false} {
 							for _, ids := range [][2]any{{nil, nil}, {"did:x:c", []any{"did:x:c", "did:x:e"}}} {
 								s := resolution.State{UpdateCommitment: uc, RecoveryCommitment: rc, AnchorOrigin: ao, Deactivated: de, CreatedTime: times[0], UpdatedTime: times[1]}
